@@ -18,6 +18,26 @@ CHECKS = {
         text='FlankMid/Zerox are transcribed with the four cases (zero segment, inverted flank, floor-median of crossings, no crossing); TLC checks the property-level invariants (inside the flank, sample just before the crossing, median) and that the real find_zerox agrees on all cases of the bound - literally the quantifier of C03 - and on recorded calls.',
         design_ref='6/C03',
         note='bounded exhaustiveness (6-7 samples, 3-4 levels); integer-valued signals (dyadic grid) in traces.'),
+    'C04': dict(
+        technique=TECH + 'exhaustive small-scope model checking (MC_Shape) with indexed conformance of the real compute_shape_features, plus trace validation (Trace_Pipeline) of every shape column of recorded runs as exact integers / rationals',
+        text='ShapeOf is written directly against the original signal for both centrings; TLC checks the identities and ranges of C04 and that the code\'s negate-and-rename route equals the direct definition on all small inputs, compares the real compute_shape_features on each of them, and judges every row of every recorded compute_features run (both centrings, with and without sample columns).',
+        design_ref='6/C04',
+        note='band_amp is validated against the amplitude recorded at the neurodsp boundary (rounded to the dyadic grid there); value conformance is established on dyadic-grid signals.'),
+    'C05': dict(
+        technique=TECH + 'exhaustive small-scope model checking (MC_BurstFeat, MC_Shape) with indexed conformance of the real burst-feature functions, plus trace validation of recorded runs on tie-rich signals',
+        text='AmpFraction (average rank), AmpConsistency (three flank pairs, centring-dependent neighbours, NaN / -inf / clamp), PeriodConsistency and Monotonicity (strict steps) are defined over exact rationals; TLC checks unit range, NaN ends, both = min(next,last) and mirror consistency on all small tables and compares the real functions on each (3 directions, both centrings); recorded tables are validated column by column.',
+        design_ref='6/C05',
+        note='small domains (3-5 rows, voltages -1..2, periods 1..2; signals to 6 samples) for the exhaustive part; sampled traces beyond.'),
+    'C06': dict(
+        technique=TECH + 'exhaustive small-scope model checking (MC_Detect) with indexed conformance of the real detect_bursts_cycles on values just below / on / just above the thresholds and NaN, plus trace validation of labels on rank codes of the table\'s own floats',
+        text='DetectCycles = minimum-run filter of (interior cycle strictly above all four thresholds); TLC checks the rule in the property\'s words, the end-cycle rule and monotonicity in every threshold and in min_n_cycles on all profile tables, compares the real function on each, and judges the labels of every recorded run without any tolerance near a threshold (order-isomorphic rank codes).',
+        design_ref='6/C06',
+        note='profiles: 10 per cycle, 4-5 cycles; rank coding is order-preserving by construction.'),
+    'C07': dict(
+        technique=TECH + 'exhaustive small-scope model checking (MC_Amp) with indexed conformance of the real compute_burst_fraction / detect_bursts_amp, plus trace validation of recorded amp-method runs incl. the arguments reaching the sample-wise detector',
+        text='BurstFraction over the inclusive window as an exact rational, labels = run filter of (fraction >= threshold), EffMinCycles routing (burst options, else thresholds, else 3) checked both at the recorded detector call and in the run filter; all masks x tilings x thresholds x min_n_cycles exhaustively against the real code, and every recorded run over the four routings.',
+        design_ref='6/C07',
+        note='neurodsp\'s sample-wise detector output is taken as recorded (arguments checked); masks to 7-8 samples exhaustively.'),
     'C08': dict(
         technique=TECH + 'exhaustive small-scope model checking with indexed conformance (IX) of the real function, plus TLC trace validation of recorded calls on long arrays',
         text='TLC enumerates every boolean array up to length 11 (thorough 15) x every min_n_cycles, runs a scanning state machine, '
